@@ -2,8 +2,9 @@
    5b408a5 (array schema without items), edb60a6 (member index missing / out of range / repeated),
    ab822fe (type-mismatch error formatting), 3716514 (processField error no longer dropped),
    a8e03d8 (all array levels), ee2952f (nested components in the signature helper), 0917534
-   (json.Unmarshal error reported), 305065f (parameter name escaped for the resource URL) and 509d77b
-   (JSON type checked at every level).  One definition per Go function, same case order and guards;
+   (json.Unmarshal error reported), 305065f (parameter name escaped for the resource URL), 509d77b
+   (JSON type checked at every level) and 805ac6f (element descriptions of an array checked against the
+   element type, one items level per dimension).  One definition per Go function, same case order and guards;
    nil dereferences and index expressions are explicit [Panic].  No proofs here.
 
    External behaviour and how it enters:
@@ -217,6 +218,20 @@ Definition inputTypeValidForTypeComponent (s : schema) (tc : tcomp) : res unit :
   if ok then Ok tt
   else do _ <- tc_string tc; Err ETypeMismatch.    (* the error text renders tc.String() *)
 
+(* the closing loop of processField over the dimensions of the parsed type (fix 805ac6f):
+     items, child := schema.Items, tc
+     for child is a fixed or dynamic array { child = child.ArrayChild(); if items == nil { error };
+        inputTypeValidForTypeComponent(items, child) or error; items = items.Items } *)
+Fixpoint itemsValid (items : option schema) (tc : tcomp) {struct tc} : res unit :=
+  match tc with
+  | CFixedArr c _ | CDynArr c =>
+      match items with
+      | None => Err EInvalidDetails
+      | Some it => do _ <- inputTypeValidForTypeComponent it c; itemsValid (s_items it) c
+      end
+  | _ => Ok tt
+  end.
+
 (* parameters[i] and parameters[i] = p on the slice make(abi.ParameterArray, n) *)
 Definition slot_get {A} (l : list (option A)) (i : nat) : res (option A) :=
   match nth_error l i with Some x => Ok x | None => Panic end.
@@ -302,6 +317,8 @@ Fixpoint processSchema (name : bytes) (s : schema) {struct s} : res fparam :=
       (* the JSON type is checked against the Ethereum type at every level *)
       do tc <- parseABIParameterComponents (erase parameter);
       do _ <- inputTypeValidForTypeComponent s tc;
+      (* ... and along the items chain of an array, one level per dimension *)
+      do _ <- itemsValid items tc;
       Ok parameter
     end
   end.
